@@ -2,7 +2,7 @@
 import ast, z3
 from .values import *
 from .state import *
-from .engine import Res, FnCtx, as_int, as_num, is_num, const_int
+from .engine import Res, FnCtx, as_int, as_num, is_num, const_int, simp
 from .engine_stmt import NEXT, RET, RAISE, BRK, CONT
 from . import front
 
@@ -234,22 +234,18 @@ class CallMixin:
             raise Unsupported('call-site contract of %s has ghost parameters' % c.target)
         # resolve unions of typed params
         ptypes = dict(c.params)
-        outs = [p]
+        outs = [(p, dict(env))]
         for n in list(env):
             if isinstance(env[n], VUnion) and ptypes.get(n, 'Any') != 'Any':
                 nxt = []
-                for q in outs:
+                for (q, e) in outs:
                     for (q2, cv) in self.cases(q, env[n]):
-                        q2.ghost = dict(q2.ghost)
-                        q2.ghost['arg:' + n] = cv
-                        nxt.append(q2)
+                        e2 = dict(e)
+                        e2[n] = cv
+                        nxt.append((q2, e2))
                 outs = nxt
         res = []
-        for q in outs:
-            e = dict(env)
-            for n in e:
-                if 'arg:' + n in q.ghost:
-                    e[n] = q.ghost['arg:' + n]
+        for (q, e) in outs:
             res.extend(self.apply_contract1(c, e, q, fc, node, where))
         return res
 
@@ -260,8 +256,12 @@ class CallMixin:
         p.env = dict(env)
         out = []
         try:
+            self.eval_lets(c, p, sfc)
+            env = dict(p.env)
             # argument types
             for (n, t) in c.params:
+                if n not in env:
+                    continue
                 ok = self.type_check(p, env[n], t)
                 if ok is not True:
                     self.oblige(p, where + '/argtype:' + n, ok, 'precondition')
@@ -301,6 +301,13 @@ class CallMixin:
         finally:
             if p.env is not saved_env and p is not None:
                 p.env = dict(saved_env)
+
+    def eval_lets(self, c, p, sfc):
+        for (n, e) in c.lets:
+            rs = self.ev(e, p, sfc)
+            if len(rs) != 1 or rs[0].exc is not None:
+                raise Unsupported('ghost definition forks: ' + n)
+            p.env[n] = rs[0].v
 
     def havoc_modifies(self, c, p, sfc, exceptional):
         if c.modifies is None:
@@ -423,7 +430,7 @@ class CallMixin:
             v = self.ev(node.args[0], p, fc)[0].v
             k = KIND_CASTS[name]
             if isinstance(v, VUnion):
-                return [Res(p, mk_value(k, v.get(k)))]
+                return [Res(p, mk_value(k, simp(v.get(k))))]
             return [Res(p, v)]
         return None
 
@@ -529,7 +536,12 @@ class CallMixin:
         saved = p.env
         p.env = {}
         for v, (n, t) in zip(vs, f.params):
-            p.env[n] = self.value_of_type(self.coerce_to(v, t), t) if t not in ('Any',) else (v if isinstance(v, V) else v)
+            if t == 'Any':
+                p.env[n] = v
+            elif t == 'Bytes' and isinstance(v, VBytes):
+                p.env[n] = v          # keeps the code/spec provenance (byte-range facts at read sites)
+            else:
+                p.env[n] = self.value_of_type(self.coerce_to(v, t), t)
         try:
             rs = self.ev(f.body, p, sfc)
         finally:
@@ -644,13 +656,22 @@ class CallMixin:
         extra = p.pc[n0:]
         del p.pc[n0:]
         keep = []
+        inner = []
         for a in extra:
             if not any(self._mentions(a, b) for b in bound):
                 keep.append(a)
+            else:
+                inner.append(a)
         for a in keep:
             p.assume(a)
+        # facts about the bound variables (byte ranges of code sequences, finite-map facts, codec axioms) are
+        # universally valid library guarantees: they may be used inside the quantifier
         if forall:
+            if inner:
+                body = z3.Implies(z3.And(*inner), body)
             return [Res(p, VBool(z3.ForAll(bound, body)))]
+        if inner:
+            body = z3.And(body, *inner)
         return [Res(p, VBool(z3.Exists(bound, body)))]
 
     def _qid(self):
